@@ -58,10 +58,13 @@ FILES = {
     "inc/inc.h": "static int from_inc(void) { int hh[2]; hh[0] = 1; return hh[7]; }\n",
     "alt/inc.h": "static int from_alt(void) { int *ap = 0; return *ap; }\n",
 }
-SOURCES = ["m.c", "n.c"]
+FILES["p.cpp"] = "void pf(std::string s) { (void)s.size(); }\n"      # performance only (passedByValue)
+FILES["q.c"] = "int f_port(int *p) { int x; x = p; return x; }\n"       # portability only (AssignmentAddressToInteger)
+SOURCES = ["m.c", "n.c", "p.cpp", "q.c"]
 # style (which implies warning, performance, portability) is part of the default so that every palette entry differs from
 # the default in exactly one aspect
-BASE = ["-q", "--template=" + projgen.TEMPLATE, "--error-exitcode=3", "--enable=style"]
+BASE = ["-q", "--template=" + projgen.TEMPLATE, "--error-exitcode=3"]
+DEFAULT_SEV = ["--enable=style"]
 
 PALETTE = {
     "none": [],
@@ -84,7 +87,14 @@ PALETTE = {
     "force": ["--force"],
     "inline": ["--inline-suppr"],
     "missinc": ["--enable=missingInclude"],
+    # the severities one by one instead of the default --enable=style (which implies warning, performance, portability)
+    "sev-none": ["--disable=style,warning,performance,portability"],
+    "sev-warning": ["--disable=style,warning,performance,portability", "--enable=warning"],
+    "sev-perf": ["--disable=style,warning,performance,portability", "--enable=performance"],
+    "sev-port": ["--disable=style,warning,performance,portability", "--enable=portability"],
+    "sev-perf-port": ["--disable=style,warning,performance,portability", "--enable=performance,portability"],
 }
+SEV_GROUP = sorted(k for k in PALETTE if k.startswith("sev-"))
 
 
 def tlc_histories(k):
@@ -104,7 +114,7 @@ def run_history(idx, hist, jobs_cycle):
     os.mkdir(os.path.join(root, "bd"))
     obs, cache_runs, steps = [], [], []
     for step, name in enumerate(hist):
-        opts = BASE + PALETTE[name]
+        opts = BASE + DEFAULT_SEV + PALETTE[name]
         jobs = jobs_cycle[(idx + step) % len(jobs_cycle)]
         cached = cachelayer.run_cppcheck(root, SOURCES, opts, builddir="bd", jobs=jobs, trace=True)
         fresh = cachelayer.run_cppcheck(root, SOURCES, opts, builddir=None, jobs=1, trace=False)
@@ -155,7 +165,8 @@ def main(tier, seed, replay=None):
         if tier == "quick":
             # every palette entry is switched on and off against the default once, plus a seeded sample of the other pairs
             base = [p_ for p_ in pairs if "none" in p_]
-            hists = base + rnd.sample([p_ for p_ in pairs if "none" not in p_], 30)
+            sev = [p_ for p_ in pairs if p_[0] in SEV_GROUP and p_[1] in SEV_GROUP]
+            hists = base + sev + rnd.sample([p_ for p_ in pairs if "none" not in p_ and p_ not in sev], 30)
         else:
             hists = pairs + rnd.sample([s for s in seqs if len(s) == 3], 500)
     all_obs, histories, step_index = [], [], {}
@@ -193,7 +204,7 @@ def main(tier, seed, replay=None):
     cov = {"states": mc_states + tstates, "transitions": mc_states + tstates, "traces_validated_against_impl": nval,
            "evaluations": npairs, "distinct_nontrivial": len(hists),
            "rule": "one evaluation per step of an option history (cached vs fresh run with the same options); histories of distinct palette entries "
-                   "enumerated by TLC (SeqGen); quick = all ordered pairs with the default option set + 30 seeded other pairs, thorough = all ordered pairs + 500 seeded triples",
+                   "enumerated by TLC (SeqGen); quick = all ordered pairs with the default option set + all ordered pairs of the single-severity entries + 30 seeded other pairs, thorough = all ordered pairs + 500 seeded triples",
            "palette": sorted(PALETTE), "palette_effect": {k: sorted(v) for k, v in effect.items()},
            "relation_bad": len(bad), "cache_trace_rejected": len(rejected), "samples": mc_samples + [{"history": hists[0]}, {"history": hists[-1]}]}
     vlib.write_evidence(PID, tier, seed, "model_checking", cov, time.time() - t0, violations=new,
